@@ -125,7 +125,12 @@ impl AnnotationStore {
         ResultIter::new_sorted(
             self.iter()
                 .map(|item: &TextResource| item.as_resultitem(self, self))
-                .filter(|res| self.resource_substore_map.get(res.handle()).is_none()),
+                .filter(|res| {
+                    self.resource_substore_map
+                        .get(res.handle())
+                        .map(|substores| substores.is_empty())
+                        .unwrap_or(true)
+                }),
         )
     }
 
@@ -151,7 +156,12 @@ impl AnnotationStore {
         ResultIter::new_sorted(
             self.iter()
                 .map(|item: &AnnotationDataSet| item.as_resultitem(self, self))
-                .filter(|ds| self.dataset_substore_map.get(ds.handle()).is_none()),
+                .filter(|ds| {
+                    self.dataset_substore_map
+                        .get(ds.handle())
+                        .map(|substores| substores.is_empty())
+                        .unwrap_or(true)
+                }),
         )
     }
 
